@@ -8,11 +8,14 @@ OUTSIDE = ["'the module containing the entry point is first': the swap is inline
            "agreement of the build id with an independent ELF reader on real files (extraction is C14; here the readers are scripted)", "merged extents (C13)", "deleted binaries, names with spaces / non-ASCII"]
 ASSUMPTIONS = ["<BuildId as ReadFromModule>::read_from_module and <SoName as ...>::read_from_module replaced by scripted readers (error / symbolic 8-byte id / all-zero id; SONAME or none)",
                "in the mappings::write harnesses the private fill_raw_module is replaced by a logger (its own behaviour is the c08_raw_module_* harnesses, thorough tier)", "std::path::Path::exists stubbed true; std::fs::File::open stubbed (asserts the path is not under /dev, returns NotFound)", "std::fmt::format stubbed"]
-def M(n, d, tier="quick", **kw): return H("c08_modules::" + n, desc=d, tier=tier, loops={"extend_with": 60}, timeout=1500, **kw)
+def M(n, d, tier="quick", **kw): return H("c08_modules::" + n, desc=d, tier=tier, loops={"extend_with": 60}, timeout=kw.pop("timeout",1500), **kw)
 HARNESSES = [
-    M("c08_probe_named_bidok_sonok","probe","thorough",est_gb=8,mem_gb=14),
-    M("c08_probe_unnamed_nouser","probe","thorough",est_gb=8,mem_gb=14), M("c08_probe_unnamed_user","probe","thorough",est_gb=8,mem_gb=14), M("c08_probe_named_biderr","probe","thorough",est_gb=8,mem_gb=14), M("c08_probe_named_bidok","probe","thorough",est_gb=8,mem_gb=14), M("c08_probe_named_bidzero","probe","thorough",est_gb=8,mem_gb=14),
+    M("c08_write_unnamed_not_listed", "mappings::write: an unnamed mapping is not listed"), M("c08_write_zero_id_not_listed", "an all-zero build id is not listed"),
+    M("c08_write_listed_with_soname", "a named mapping with a build id is listed once: base, size, id, SONAME passed on"), M("c08_write_user_only", "caller-supplied mapping: verbatim, supplied id"),
+    M("c08_write_target_then_user", "target modules first, then caller-supplied ones, in order"), M("c08_write_zero_id_and_user", "zero-id target skipped, caller-supplied listed"),
+    M("c08_write_suppressed", "a target mapping wholly inside a caller-supplied one is suppressed (equal end addresses), not even read"),
+    M("c08_write_listed_no_soname", "unreadable SONAME: listed without it", "thorough", timeout=3000, est_gb=14, mem_gb=30),
     M("c08_is_interesting", "is_interesting predicate"), M("c08_is_contained_in", "is_contained_in predicate"),
     M("c08_raw_module_replace_basename", "module record, basename replaced by SONAME (string handling: > 15 min)", "thorough", est_gb=10, mem_gb=30), M("c08_raw_module_append_soname", "module record, SONAME appended", "thorough", est_gb=10, mem_gb=30),
-    M("c08_write_list", "module list: listed / skipped / caller-supplied (does not finish: 16 GB)", "thorough", est_gb=16, mem_gb=34), M("c08_write_suppressed", "target mapping inside a caller mapping is suppressed (does not finish: 16 GB)", "thorough", est_gb=16, mem_gb=34),
+    M("c08_write_list", "three target mappings + one caller-supplied in one run (does not finish: > 25 GB)", "thorough", est_gb=16, mem_gb=34),
 ]
